@@ -105,9 +105,13 @@ Definition compare (kind : Z) (items : list Z) (pred : delivered res (list (Z * 
   | _, _ => false
   end.
 
-(* the observed schedule is one the model quantifies over, and has Pool's chunk structure *)
+(* the observed schedule is one the model quantifies over (every requested item run exactly as
+   often as requested) *)
 Definition schedule_ok (procs : Z) (items : list Z) (evs : list (Z * list Z)) : bool :=
-  perm_b (concat (map snd evs)) items &&
+  perm_b (concat (map snd evs)) items.
+
+(* informational (not a failure): the observed chunks are the ones the model's dispatch cuts *)
+Definition chunking_matches (procs : Z) (items : list Z) (evs : list (Z * list Z)) : bool :=
   match dispatch (Z.to_nat procs) items with
   | Serial => match evs with [(0, c)] => lz_eqb c items | _ => false end
   | Pool p cs => perm_lb (map snd evs) (chunks cs items) &&
@@ -161,5 +165,21 @@ Definition check_case (c : case) : list (nat * nat) :=
       flat_map (fun nr => map (fun cd => (fst nr, cd)) (check_run c first (snd nr))) (number 0 (c_runs c))
   end.
 
+(* number of observed schedules whose chunk structure is NOT the model's (expected: none) *)
+Definition chunk_mismatches (cases : list (Z * case)) : list (Z * list (nat * nat)) :=
+  flat_map (fun ic =>
+    match flat_map (fun nr => match r_events (snd nr) with
+                              | [] => []
+                              | evs => if chunking_matches (r_procs (snd nr)) (r_items (snd nr)) evs then []
+                                       else [(fst nr, 9%nat)]
+                              end) (number 0 (c_runs (snd ic))) with
+    | [] => []
+    | l => [(fst ic, l)]
+    end) cases.
+
 Definition failing (cases : list (Z * case)) : list (Z * list (nat * nat)) :=
   flat_map (fun ic => match check_case (snd ic) with [] => [] | l => [(fst ic, l)] end) cases.
+
+(* failures, followed by the informational chunk mismatches under index + 1000000 *)
+Definition report (cases : list (Z * case)) : list (Z * list (nat * nat)) :=
+  failing cases ++ map (fun il => (fst il + 1000000, snd il)) (chunk_mismatches cases).
